@@ -1,11 +1,18 @@
 import PytezosModel.Proofs.C15
+import PytezosModel.Proofs.C15Keys
+import PytezosModel.Props.C03
+import PytezosModel.Michelson.BigMapKey
 /-! C15 — big map operations and lazy diffs agree with a layered dictionary model.
 
 `Impl.BigMap.*` mirrors `BigMapType.get / update`, `MapType.contains`, GET / MEM / UPDATE / GET_AND_UPDATE on a
 big_map and the big_map part of `ExecutionContext`; the shape of `update` is read from the source by the translator
 (`Generated.C15`, combined in `Impl.BigMap.config`).  `Spec.BigMap.*` is the reference: a dictionary `K → Option V`
-layered over the on-chain contents `chain`.  Keys are any type with decidable equality and a comparison that is a
-strict total order (hypothesis `StrictTotal`; C03 is about whether `__lt__` is one); values are abstract.
+layered over the on-chain contents `chain`.  The first part is generic: keys are any type with decidable equality and a
+comparison that is a strict total order (hypothesis `StrictTotal`); values are abstract (any type: nothing in the mirrored
+code looks at a value except `is None`).  The second part (`typed_*`) discharges the hypothesis for the keys of EVERY
+comparable Michelson type `τ` — `Order.TVal τ` with the mirrors of the pytezos `__eq__` / `__lt__` methods, through
+`C03.tval_strictTotal` — so that those theorems carry no hypothesis on the order at all; `nat` keys (Lean `Nat` with
+`Nat.blt`) remain as a second, direct instance (`nat_*`).
 All history theorems are by induction over the operation list — no bound on the length. -/
 namespace C15
 open Impl.BigMap Spec.BigMap Proofs.C15 Generated.C15
@@ -196,8 +203,191 @@ theorem diff_key_hash {H : Type} (keyHash : K → H) (c : Ctx) (b : BM K V) (e :
 /-- the expression hash is the base58 `expr` form of a 32-byte Blake2b digest (recomputed independently by the check) -/
 theorem key_hash_format : keyHashPrefix = some "expr" ∧ keyHashDigestSize = some 32 := by decide
 
-/-! ### non-vacuity and the defective shapes (documentation: these are about explicitly chosen shapes, not `config`) -/
+/-! ### DUP, and pytezos' own reading of the emitted diff -/
 
+/-- DUP of a big map gives a value with the same id and the same local layer: it stands for the same dictionary and
+satisfies the invariant, so every theorem above applies to each of the two copies separately as they diverge -/
+theorem duplicate_same {b : BM K V} (hI : Inv lt b) (chain : K → Option V) :
+    ∃ b', duplicate b = some b' ∧ b'.ptr = b.ptr ∧ Inv lt b' ∧ layered (overlay b') chain = layered (overlay b) chain := by
+  refine ⟨⟨b.items, b.removed, b.ptr⟩, ?_, rfl, ⟨hI.sorted, hI.noNone, hI.disjoint, hI.nodup⟩, rfl⟩
+  have : duplicateShape = some () := by decide
+  simp only [duplicate, this, Option.map_some]
+
+/-- `merge_lazy_diff` takes exactly the updates with a value for stored items -/
+theorem merge_shape_ok : mergeShape = some .isNotNone := by decide
+
+/-- reading the emitted updates back with `merge_lazy_diff` gives the local layer that was emitted — whatever the values
+are (`falsy`: which values have a falsy Micheline form plays no role) -/
+theorem merge_reads_emitted {b : BM K V} (hI : Inv lt b) (falsy : V → Bool) (p : Int) :
+    mergeLazyDiff falsy p (diffUpdates b) = some ⟨b.items, b.removed, some p⟩ := by
+  have h1 : b.items.filter (fun u => hasValue .isNotNone falsy u.2) = b.items := by
+    refine List.filter_eq_self.2 ?_
+    intro e he
+    cases h : e.2 with
+    | none => exact absurd h (hI.noNone e he)
+    | some x => rfl
+  have h2 : b.items.filter (fun u => !hasValue .isNotNone falsy u.2) = [] := by
+    refine List.filter_eq_nil_iff.2 ?_
+    intro e he
+    cases h : e.2 with
+    | none => exact absurd h (hI.noNone e he)
+    | some x => simp [hasValue]
+  have h3 : (b.removed.map fun k => (k, (none : Option V))).filter (fun u => hasValue .isNotNone falsy u.2) = [] := by
+    refine List.filter_eq_nil_iff.2 ?_
+    intro e he
+    obtain ⟨k, _, rfl⟩ := List.mem_map.1 he
+    simp [hasValue]
+  have h4 : ((b.removed.map fun k => (k, (none : Option V))).filter (fun u => !hasValue .isNotNone falsy u.2)).map (·.1) = b.removed := by
+    rw [List.filter_eq_self.2 (by intro e he; obtain ⟨k, _, rfl⟩ := List.mem_map.1 he; simp [hasValue])]
+    simp [Function.comp_def]
+  simp only [mergeLazyDiff, merge_shape_ok, Option.map_some, mergeWith, diffUpdates, selfIter, List.filter_append, h1, h2, h3,
+    List.append_nil, List.nil_append, h4]
+
+/-- pinned shape (truthiness test): an update whose value is falsy — an empty map, set or list — is read back as a removal -/
+theorem truthy_merge_counterexample :
+    mergeWith .truthy (fun v : Nat => v == 0) 5 [((1 : Nat), some 0), (2, some 7), (3, none)] = ⟨[(2, some 7)], [1, 3], some 5⟩ ∧
+    mergeWith .isNotNone (fun v : Nat => v == 0) 5 [((1 : Nat), some 0), (2, some 7), (3, none)]
+      = ⟨[(1, some 0), (2, some 7)], [3], some 5⟩ := by decide
+
+/-! ### keys of every comparable Michelson type (no hypothesis on the order)
+
+`TVal τ` = the runtime values of the comparable type `τ` (C03: unit, bool, int, nat, mutez, timestamp, string, bytes,
+key_hash, address, key, signature, chain_id, option, or, pair — nested without bound).  `==` on such keys is computed by the
+mirror of `__eq__` (`Proofs.C15Keys.tvalDecEq`), `<` is the mirror of `__lt__`. -/
+section typed
+open Order Proofs.C15Keys
+variable {τ : CTy} {V : Type}
+
+/-- the key equality the model uses IS the mirrored `__eq__` of the key's class -/
+theorem key_eq_is_runtime_eq (a b : TVal τ) : (a == b) = Impl.Order.eq a.1 b.1 := tval_beq a b
+
+/-- the key comparison the model uses IS the mirrored `__lt__` of the key's class, which never raises on two keys of one type -/
+theorem key_lt_is_runtime_lt (a b : TVal τ) : Impl.Order.lt a.1 b.1 = some (TVal.lt a b) := C03.lt_defined a b
+
+/-- `__lt__` of every comparable type is a strict total order on its values (C03), in the form used above -/
+theorem key_order_strictTotal (τ : CTy) : StrictTotal (TVal.lt (τ := τ)) :=
+  ⟨(C03.tval_strictTotal τ).irrefl, (C03.tval_strictTotal τ).trans,
+   fun a b hne => ((C03.tval_strictTotal τ).total a b).resolve_left hne⟩
+
+/-- UPDATE / GET_AND_UPDATE with a key of any comparable type -/
+theorem typed_update_refines {b : BM (TVal τ) V} (hI : Inv TVal.lt b) (chain : TVal τ → Option V) (k : TVal τ) (v : Option V) :
+    ∃ b', update TVal.lt chain b k v = some (layered (overlay b) chain k, b') ∧ Inv TVal.lt b' ∧
+      layered (overlay b') chain = (layered (overlay b) chain).set k v :=
+  update_refines (key_order_strictTotal τ) hI chain k v
+
+/-- `Inv` is preserved by every operation, keys of any comparable type -/
+theorem typed_step_inv {b : BM (TVal τ) V} (hI : Inv TVal.lt b) (chain : TVal τ → Option V) (op : Op (TVal τ) V) :
+    Inv TVal.lt (stepSh shOK TVal.lt chain b op).2 := step_inv (key_order_strictTotal τ) hI chain op
+
+/-- the property, first half, for keys of EVERY comparable Michelson type and values of any type: every history of
+GET / MEM / UPDATE / GET_AND_UPDATE observes what the dictionary layered over the on-chain contents observes -/
+theorem typed_history_obs_eq (chain : TVal τ → Option V) (ops : List (Op (TVal τ) V)) {b : BM (TVal τ) V} (hI : Inv TVal.lt b) :
+    ∃ obs b', Impl.BigMap.run TVal.lt chain b ops = some (obs, b') ∧
+      obs = (Spec.BigMap.run (layered (overlay b) chain) ops).1 ∧
+      layered (overlay b') chain = (Spec.BigMap.run (layered (overlay b) chain) ops).2 ∧ Inv TVal.lt b' :=
+  history_obs_eq (key_order_strictTotal τ) chain ops hI
+
+/-- an accepted literal with keys of any comparable type satisfies the invariant -/
+theorem typed_literal_inv (items : List (TVal τ × V)) (b : BM (TVal τ) V) (h : fromLiteral TVal.lt items = some b) :
+    Inv TVal.lt b := literal_inv (key_order_strictTotal τ) items b h
+
+/-- the emitted updates applied to the on-chain contents give the dictionary, keys of any comparable type -/
+theorem typed_diff_applies {b : BM (TVal τ) V} (hI : Inv TVal.lt b) (chain : TVal τ → Option V) :
+    applyUpdates chain (diffUpdates b) = layered (overlay b) chain := diff_applies (key_order_strictTotal τ) hI chain
+
+/-- the property, second half, for keys of EVERY comparable Michelson type: the diff emitted after any history, applied to
+the on-chain contents, gives exactly the final dictionary -/
+theorem typed_history_diff (chain : TVal τ → Option V) (ops : List (Op (TVal τ) V)) (p : Option Int) :
+    ∃ obs b', Impl.BigMap.run TVal.lt chain (⟨[], [], p⟩ : BM (TVal τ) V) ops = some (obs, b') ∧
+      applyUpdates chain (diffUpdates b') = (Spec.BigMap.run chain ops).2 :=
+  history_diff (key_order_strictTotal τ) chain ops p
+
+theorem typed_history_diff_from (chain : TVal τ → Option V) (ops : List (Op (TVal τ) V)) {b : BM (TVal τ) V} (hI : Inv TVal.lt b) :
+    ∃ obs b', Impl.BigMap.run TVal.lt chain b ops = some (obs, b') ∧
+      applyUpdates chain (diffUpdates b') = (Spec.BigMap.run (layered (overlay b) chain) ops).2 :=
+  history_diff_from (key_order_strictTotal τ) chain ops hI
+
+/-- the whole emitted entry (id, action, updates with key hashes), keys of any comparable type -/
+theorem typed_entry_applies {H : Type} (keyHash : TVal τ → H) (chains : Int → Dict (TVal τ) V)
+    (hneg : ∀ p, p < 0 → chains p = fun _ => none) (c : Ctx) {b : BM (TVal τ) V} (hI : Inv TVal.lt b) (p : Int) (hp : b.ptr = some p) :
+    ∃ e c', aggregateLazyDiff keyHash c b = some (e, ⟨[], [], some e.id⟩, c') ∧
+      applyEntry chains (getBigMapDiff c p).1.1 e e.id = layered (overlay b) (ctxChain chains c p) ∧
+      (∀ i, i ≠ e.id → applyEntry chains (getBigMapDiff c p).1.1 e i = chains i) ∧
+      ∀ u ∈ e.updates, u.2.1 = keyHash u.1 := by
+  obtain ⟨e, c', h1, h2, h3⟩ := entry_applies (key_order_strictTotal τ) keyHash chains hneg c hI p hp
+  exact ⟨e, c', h1, h2, h3, diff_key_hash keyHash c b e _ c' h1⟩
+
+/-- each update of the emitted entry carries the hash of the LEGACY PACK of its own key (`0x05 ‖` the binary Micheline of
+the key with pairs nested and leaves optimized: `Impl.BigMap.packLegacy`), for any hash function `hash` (in the code:
+base58 `expr` of Blake2b-256, `key_hash_format`) — keys of any comparable type -/
+theorem typed_diff_key_hash {H : Type} (hash : Option (List Nat) → H) (c : Ctx) (b : BM (TVal τ) V)
+    (e : DiffEntry (TVal τ) V H) (b' : BM (TVal τ) V) (c' : Ctx)
+    (h : aggregateLazyDiff (fun k : TVal τ => hash (packLegacy k.1)) c b = some (e, b', c')) :
+    ∀ u ∈ e.updates, u.2.1 = hash (packLegacy u.1.1) := diff_key_hash _ c b e b' c' h
+
+/-- the source has the shape `packLegacy` was written from -/
+theorem pack_shape_ok : packShape = some () := by decide
+
+/-- the legacy form of a pair key is the two-argument `Pair` of its two components — a right comb is never flattened and
+never written as a sequence (that is the `optimized`, non-legacy form) -/
+theorem keyMich_pair (a b : CVal) : keyMich (.pair a b) = .prim "Pair" [keyMich a, keyMich b] [] := rfl
+
+/-- a whole run in one statement — attach, history, aggregate — for keys of any comparable type: a big map that enters
+with id `p` and no local changes (on-chain map in the storage, or copied parameter) runs any history with the
+dictionary's observations and then emits an entry that, applied to the on-chain family, leaves exactly the final dictionary
+at the destination id, every update carrying the hash of its own key -/
+theorem typed_run_and_diff {H : Type} (keyHash : TVal τ → H) (chains : Int → Dict (TVal τ) V)
+    (hneg : ∀ p, p < 0 → chains p = fun _ => none) (c : Ctx) (p : Int) (ops : List (Op (TVal τ) V)) :
+    ∃ obs b' e c', Impl.BigMap.run TVal.lt (ctxChain chains c p) (⟨[], [], some p⟩ : BM (TVal τ) V) ops = some (obs, b') ∧
+      obs = (Spec.BigMap.run (ctxChain chains c p) ops).1 ∧
+      aggregateLazyDiff keyHash c b' = some (e, ⟨[], [], some e.id⟩, c') ∧
+      applyEntry chains (getBigMapDiff c p).1.1 e e.id = (Spec.BigMap.run (ctxChain chains c p) ops).2 ∧
+      ∀ u ∈ e.updates, u.2.1 = keyHash u.1 := by
+  obtain ⟨obs, b', hr, ho, hd, hI⟩ := typed_history_obs_eq (ctxChain chains c p) ops (fresh_inv (lt := TVal.lt) (V := V) (some p))
+  have hp : b'.ptr = some p := run_ptr (ctxChain chains c p) ops _ _ hr
+  obtain ⟨e, c', h1, h2, _, h4⟩ := typed_entry_applies keyHash chains hneg c hI p hp
+  rw [fresh_dict] at ho hd
+  exact ⟨obs, b', e, c', hr, ho, h1, by rw [h2, hd], h4⟩
+
+/-! non-vacuity: composite keys.  Keys of type `pair int string`; in the Tezos order `(1,"a") < (1,"b") < (2,"")`
+(the first component decides, then the second) -/
+abbrev τps : CTy := .pair (.num .int) .string
+def kA : TVal τps := key τps (.pair (.num .int 1) (.str [97]))
+def kB : TVal τps := key τps (.pair (.num .int 1) (.str [98]))
+def kC : TVal τps := key τps (.pair (.num .int 2) (.str []))
+/-- on-chain: `(1,"b") ↦ 100` -/
+def chainPS : Dict (TVal τps) Nat := fun k => if k = kB then some 100 else none
+
+-- inserted in the order C, A, B; the stored items end up in the Tezos order; value 0 (falsy in Python) is a value
+example : Impl.BigMap.run TVal.lt chainPS (⟨[], [], some 5⟩ : BM (TVal τps) Nat)
+    [.update kC (some 0), .get kB, .update kB none, .update kA (some 7), .getAndUpdate kB (some 8), .mem kC, .get kA, .get kC]
+    = some ([.unit, .val (some 100), .unit, .unit, .val none, .bool true, .val (some 7), .val (some 0)],
+            ⟨[(kA, some 7), (kB, some 8), (kC, some 0)], [], some 5⟩) := by decide
+example : Inv TVal.lt (⟨[(kA, some 7), (kC, some 0)], [kB], some 5⟩ : BM (TVal τps) Nat) :=
+  ⟨by decide, by decide, by decide, by decide⟩
+example : fromLiteral TVal.lt [(kA, 1), (kC, 3)] = some (⟨[(kA, some 1), (kC, some 3)], [], none⟩ : BM (TVal τps) Nat) ∧
+    fromLiteral TVal.lt [(kC, 3), (kA, 1)] = (none : Option (BM (TVal τps) Nat)) := by decide
+-- keys of type `or (option address) key_hash`: an address with entrypoint vs without, `None`, a `Right`
+abbrev τoa : CTy := .or (.option .address) .keyHash
+def kN : TVal τoa := key τoa (.left .none)
+def kKT : TVal τoa := key τoa (.left (.some (.address 4 (List.replicate 20 7) [])))
+def kKTe : TVal τoa := key τoa (.left (.some (.address 4 (List.replicate 20 7) [97])))
+def kTz : TVal τoa := key τoa (.right (.keyHash 0 (List.replicate 20 0)))
+-- `Left None < Left (Some KT1…%a) < Left (Some KT1…)` (= `%default`) `< Right tz1…`
+example : (Impl.BigMap.run TVal.lt (fun _ => none) (⟨[], [], none⟩ : BM (TVal τoa) Bool)
+    [.update kTz (some false), .update kKT (some true), .update kN (some false), .update kKTe (some true), .update kKT none]).map (·.2)
+    = some ⟨[(kN, some false), (kKTe, some true), (kTz, some false)], [kKT], none⟩ := by decide
+
+-- what is hashed for the key `Pair 1 (Pair 2 (Pair 3 4))` of a 4-leaf right comb: nested `Pair`s (07 07 …), no sequence (02 …)
+example : packLegacy (.pair (.num .nat 1) (.pair (.num .nat 2) (.pair (.num .nat 3) (.num .nat 4))))
+    = some [5, 7, 7, 0, 1, 7, 7, 0, 2, 7, 7, 0, 3, 0, 4] := by decide +kernel
+-- an address key with an entrypoint: `KT1…%a` = 01 ‖ hash ‖ 00 ‖ "a"
+example : packLegacy (.some (.address 4 (List.replicate 20 7) [97]))
+    = some ([5, 5, 9, 10, 0, 0, 0, 23, 1] ++ List.replicate 20 7 ++ [0, 97]) := by decide +kernel
+
+end typed
+
+/-! ### `nat` keys as Lean naturals: a second, direct instance -/
 theorem nat_blt_irrefl (a : Nat) : Nat.blt a a = false := by
   cases h : Nat.blt a a
   · rfl
@@ -206,6 +396,42 @@ theorem nat_blt_irrefl (a : Nat) : Nat.blt a a = false := by
 theorem nat_strictTotal : StrictTotal Nat.blt :=
   ⟨nat_blt_irrefl, fun a b c h1 h2 => by simp only [Nat.blt_eq] at *; omega,
    fun a b h => by simp only [Nat.blt_eq]; omega⟩
+
+/-- the two halves of the property for `nat` keys -/
+theorem nat_history_obs_eq {V : Type} (chain : Nat → Option V) (ops : List (Op Nat V)) {b : BM Nat V} (hI : Inv Nat.blt b) :
+    ∃ obs b', Impl.BigMap.run Nat.blt chain b ops = some (obs, b') ∧
+      obs = (Spec.BigMap.run (layered (overlay b) chain) ops).1 ∧
+      layered (overlay b') chain = (Spec.BigMap.run (layered (overlay b) chain) ops).2 ∧ Inv Nat.blt b' :=
+  history_obs_eq nat_strictTotal chain ops hI
+
+theorem nat_history_diff {V : Type} (chain : Nat → Option V) (ops : List (Op Nat V)) (p : Option Int) :
+    ∃ obs b', Impl.BigMap.run Nat.blt chain (⟨[], [], p⟩ : BM Nat V) ops = some (obs, b') ∧
+      applyUpdates chain (diffUpdates b') = (Spec.BigMap.run chain ops).2 :=
+  history_diff nat_strictTotal chain ops p
+
+/-- … and this instance is the `nat` case of the typed one: on the runtime values of type `nat` the mirrored `__lt__` /
+`__eq__` are `Nat.blt` / `==` of the numbers -/
+def natKey (n : Nat) : Order.TVal (.num .nat) := ⟨.num .nat n, .num _ _ (by simp [Order.numOk])⟩
+
+theorem natKey_lt (a b : Nat) : Order.TVal.lt (natKey a) (natKey b) = Nat.blt a b := by
+  simp only [Order.TVal.lt, natKey, Impl.Order.lt]
+  cases h : Nat.blt a b
+  · have : ¬ a < b := by intro hlt; rw [← Nat.blt_eq] at hlt; rw [hlt] at h; cases h
+    simp [this]
+  · have : a < b := by simpa using h
+    simp [this]
+
+theorem natKey_eq (a b : Nat) : (natKey a == natKey b) = (a == b) := by
+  rw [Proofs.C15Keys.tval_beq]
+  simp only [Order.TVal.eq, natKey, Impl.Order.eq]
+  cases h : (a == b)
+  · have : a ≠ b := by simpa using h
+    simp; omega
+  · have : a = b := by simpa using h
+    simp [this]
+
+
+/-! ### non-vacuity and the defective shapes (documentation: these are about explicitly chosen shapes, not `config`) -/
 
 /-- on-chain contents used below: key 1 ↦ 100, key 2 ↦ 200 -/
 def chain12 : Dict Nat Nat := fun k => if k = 1 then some 100 else if k = 2 then some 200 else none
